@@ -186,8 +186,172 @@ pub(crate) mod verif_probe {
                "b_status": (reply.last().unwrap().1[0] as char).to_string()})
     }
 
+    /// Scripted backend with a per-server behaviour: "ok" | "hang_query" (completes startup, never answers a query) |
+    /// "close_query" (completes startup, closes on the first query).  "refuse" servers get no listener at all.
+    async fn behaving_postgres(listener: TcpListener, behaviour: String) {
+        loop {
+            let (mut sock, _) = match listener.accept().await { Ok(c) => c, Err(_) => return };
+            let behaviour = behaviour.clone();
+            tokio::spawn(async move {
+                let len = match sock.read_i32().await { Ok(l) => l, Err(_) => return };
+                let mut startup = vec![0u8; len as usize - 4];
+                if sock.read_exact(&mut startup).await.is_err() { return; }
+                let mut out = BytesMut::new();
+                out.put_u8(b'R'); out.put_i32(8); out.put_i32(0);
+                out.put(server_parameter_message("server_version", "14.0"));
+                out.put_u8(b'K'); out.put_i32(12); out.put_i32(1); out.put_i32(1234);
+                out.put(ready_for_query(false));
+                if sock.write_all(&out).await.is_err() { return; }
+                loop {
+                    let code = match sock.read_u8().await { Ok(c) => c, Err(_) => return };
+                    let len = match sock.read_i32().await { Ok(l) => l, Err(_) => return };
+                    let mut body = vec![0u8; (len as usize).saturating_sub(4)];
+                    if sock.read_exact(&mut body).await.is_err() { return; }
+                    if code == b'X' { return; }
+                    if code != b'Q' { continue; }
+                    match behaviour.as_str() {
+                        "hang_query" => { tokio::time::sleep(Duration::from_secs(30)).await; return; }
+                        "close_query" => { return; }
+                        _ => {
+                            let mut out = BytesMut::new();
+                            out.put_u8(b'I'); out.put_i32(4);
+                            out.put(ready_for_query(false));
+                            if sock.write_all(&out).await.is_err() { return; }
+                        }
+                    }
+                }
+            });
+        }
+    }
+
+    async fn get_scenario(v: Value) -> Value {
+        let servers = v["servers"].as_array().unwrap().clone();
+        let mut addrs = vec![];
+        let mut pools = vec![];
+        let csmap: ClientServerMap = Arc::new(Mutex::new(HashMap::new()));
+        let user = User { username: "u".to_string(), password: None, auth_type: AuthType::Trust, pool_size: 1, ..User::default() };
+        for (i, s) in servers.iter().enumerate() {
+            let beh = s["behaviour"].as_str().unwrap().to_string();
+            let port = if beh == "refuse" {
+                // bind and drop: nothing listens there
+                let l = std::net::TcpListener::bind("127.0.0.1:0").unwrap();
+                l.local_addr().unwrap().port()
+            } else {
+                let l = TcpListener::bind("127.0.0.1:0").await.unwrap();
+                let p = l.local_addr().unwrap().port();
+                tokio::spawn(behaving_postgres(l, beh));
+                p
+            };
+            let a = Address { id: i, host: "127.0.0.1".to_string(), port, address_index: i, replica_number: i, shard: 0,
+                              role: if s["role"].as_str() == Some("primary") { Role::Primary } else { Role::Replica },
+                              database: "db".to_string(), username: "u".to_string(), pool_name: "db".to_string(), ..Address::default() };
+            let manager = ServerPool::new(a.clone(), user.clone(), "db", csmap.clone(), Arc::new(RwLock::new(None)), None, true, false, 0);
+            pools.push(Pool::builder().max_size(1).connection_timeout(std::time::Duration::from_millis(400)).test_on_check_out(false).build_unchecked(manager));
+            addrs.push(a);
+        }
+        let pool = ConnectionPool {
+            databases: Arc::new(vec![pools]),
+            addresses: Arc::new(vec![addrs.clone()]),
+            banlist: Arc::new(RwLock::new(vec![HashMap::new()])),
+            config_hash: 0,
+            original_server_parameters: Arc::new(RwLock::new(ServerParameters::new())),
+            auth_hash: Arc::new(RwLock::new(None)),
+            settings: Arc::new(PoolSettings { user, db: "db".to_string(), ban_time: 3600,
+                healthcheck_timeout: v["healthcheck_timeout"].as_u64().unwrap_or(300),
+                healthcheck_delay: v["healthcheck_delay"].as_u64().unwrap_or(0), ..PoolSettings::default() }),
+            validated: Arc::new(AtomicBool::new(true)),
+            paused: Arc::new(AtomicBool::new(false)),
+            paused_waiter: Arc::new(Notify::new()),
+            prepared_statement_cache: None,
+        };
+        for b in v["banned"].as_array().unwrap() {
+            let i = b.as_u64().unwrap() as usize;
+            pool.banlist.write()[0].insert(addrs[i].clone(), (BanReason::FailedHealthCheck, chrono::offset::Utc::now().naive_utc()));
+        }
+        // warm-up: open the connections that can be opened, so that they are idle (and health-checked) at checkout
+        for i in 0..addrs.len() {
+            let _ = timeout(Duration::from_millis(800), pool.databases[0][i].get()).await;
+        }
+        tokio::time::sleep(Duration::from_millis(15)).await;
+        for a in addrs.iter() { a.reset_error_count(); }
+        let role = match v["requested"].as_str() { Some("primary") => Some(Role::Primary), Some("replica") => Some(Role::Replica), _ => None };
+        let stats = crate::stats::ClientStats::default();
+        let t0 = std::time::Instant::now();
+        // connections idle for a moment so that `last_activity().elapsed() > healthcheck_delay (0)` holds
+        let r = timeout(Duration::from_secs(20), async {
+            tokio::time::sleep(Duration::from_millis(5)).await;
+            pool.get(None, role, &stats).await.map(|(conn, a)| { let id = a.id; drop(conn); id })
+        }).await;
+        let elapsed = t0.elapsed().as_millis() as u64;
+        let result = match r { Ok(Ok(id)) => json!(id), Ok(Err(e)) => json!(format!("{:?}", e)), Err(_) => json!("timed out") };
+        json!({"result": result, "banned": banned_ids(&pool), "elapsed_ms": elapsed})
+    }
+
+    fn bare_pool(roles: &Value, ban_time: i64) -> (ConnectionPool, Vec<Address>) {
+        let mut addrs = vec![];
+        for (i, r) in roles.as_array().unwrap().iter().enumerate() {
+            addrs.push(Address { id: i, host: format!("h{}", i), address_index: i, replica_number: i, shard: 0,
+                                 role: if r.as_str() == Some("primary") { Role::Primary } else { Role::Replica }, ..Address::default() });
+        }
+        let pool = ConnectionPool {
+            databases: Arc::new(vec![vec![]]),
+            addresses: Arc::new(vec![addrs.clone()]),
+            banlist: Arc::new(RwLock::new(vec![HashMap::new()])),
+            config_hash: 0,
+            original_server_parameters: Arc::new(RwLock::new(ServerParameters::new())),
+            auth_hash: Arc::new(RwLock::new(None)),
+            settings: Arc::new(PoolSettings { ban_time, ..PoolSettings::default() }),
+            validated: Arc::new(AtomicBool::new(true)),
+            paused: Arc::new(AtomicBool::new(false)),
+            paused_waiter: Arc::new(Notify::new()),
+            prepared_statement_cache: None,
+        };
+        (pool, addrs)
+    }
+
+    fn reason_of(s: &str, d: i64) -> BanReason {
+        match s { "FailedHealthCheck" => BanReason::FailedHealthCheck, "MessageSendFailed" => BanReason::MessageSendFailed,
+                  "MessageReceiveFailed" => BanReason::MessageReceiveFailed, "FailedCheckout" => BanReason::FailedCheckout,
+                  "StatementTimeout" => BanReason::StatementTimeout, _ => BanReason::AdminBan(d) }
+    }
+
+    fn banned_ids(pool: &ConnectionPool) -> Vec<usize> {
+        let mut v: Vec<usize> = pool.banlist.read()[0].keys().map(|a| a.id).collect();
+        v.sort();
+        v
+    }
+
     pub(crate) fn handle(op: &str, v: &Value) -> Option<Value> {
         match op {
+            "pool_ban" => {
+                let (pool, addrs) = bare_pool(&v["roles"], 60);
+                let i = v["ban"].as_u64().unwrap() as usize;
+                pool.ban(&addrs[i], reason_of(v["reason"].as_str().unwrap(), 60), None);
+                Some(json!({"banned": banned_ids(&pool), "error_count": addrs[i].error_count()}))
+            }
+            "pool_get_scenario" => {
+                let runs = v.get("runs").and_then(|x| x.as_u64()).unwrap_or(1);
+                let mut out = vec![];
+                for _ in 0..runs {
+                    let rt = tokio::runtime::Builder::new_multi_thread().worker_threads(2).enable_all().build().unwrap();
+                    let vv = v.clone();
+                    out.push(rt.block_on(async move { get_scenario(vv).await }));
+                }
+                Some(json!({"runs": out}))
+            }
+            "pool_try_unban" => {
+                let (pool, addrs) = bare_pool(&v["roles"], v["ban_time"].as_i64().unwrap());
+                let now = chrono::offset::Utc::now().naive_utc();
+                for b in v["bans"].as_array().unwrap() {
+                    let i = b["idx"].as_u64().unwrap() as usize;
+                    let ts = now - chrono::Duration::seconds(b["age"].as_i64().unwrap());
+                    pool.banlist.write()[0].insert(addrs[i].clone(), (reason_of(b["reason"].as_str().unwrap(), b["duration"].as_i64().unwrap()), ts));
+                }
+                let rt = tokio::runtime::Builder::new_current_thread().enable_all().build().unwrap();
+                let t = v["target"].as_u64().unwrap() as usize;
+                let r = rt.block_on(pool.try_unban(&addrs[t]));
+                Some(json!({"result": r, "banned": banned_ids(&pool)}))
+            }
             "e2e_handover" => {
                 let rt = tokio::runtime::Builder::new_multi_thread().worker_threads(2).enable_all().build().unwrap();
                 let vv = v.clone();
